@@ -101,9 +101,16 @@ ApplyWrite(cfg, disk, w) ==
   ELSE disk
 
 RECURSIVE ApplyWrites(_, _, _, _, _)
-\* apply ws[from..to]
+\* apply ws[from..to]  (divide and conquer: journals of long prunes have > 10^4 writes, a
+\* linear recursion would overflow TLC's stack)
 ApplyWrites(cfg, disk, ws, from, to) ==
-  IF from > to THEN disk ELSE ApplyWrites(cfg, ApplyWrite(cfg, disk, ws[from]), ws, from + 1, to)
+  IF from > to THEN disk
+  ELSE IF from = to THEN ApplyWrite(cfg, disk, ws[from])
+  ELSE LET mid  == (from + to) \div 2
+           left == ApplyWrites(cfg, disk, ws, from, mid)
+       \* TLC evaluates operator arguments lazily: without the test below the left half would
+       \* only be computed on demand from inside the right half, nesting to depth to - from
+       IN IF left.state >= -1 THEN ApplyWrites(cfg, left, ws, mid + 1, to) ELSE left
 
 ApplyMem(mem, s) == [base |-> s.a, height |-> s.b]
 
@@ -152,24 +159,31 @@ Flush(memheight, batch, b) ==
 \* v0.34.24 passes h (a height the batch deletes); the repaired code passes h + 1.
 FlushBase(h) == IF Weak_IntermediateBaseOffByOne THEN h ELSE h + 1
 
-RECURSIVE PBLoop(_, _, _, _, _, _, _, _)
-PBLoop(cfg, disk, memheight, h, to, batch, pruned, out) ==
-  IF h >= to THEN out \o Flush(memheight, batch, to)
-  ELSE IF ~InDom(cfg, h) \/ disk.meta[h].blk = -1          \* "assume already deleted"
-       THEN PBLoop(cfg, disk, memheight, h + 1, to, batch, pruned, out)
+\* loop body for height h; st = [batch, pruned, out]: open batch, blocks pruned so far, steps flushed
+PBBody(cfg, disk, memheight, h, st) ==
+  IF ~InDom(cfg, h) \/ disk.meta[h].blk = -1 THEN st        \* "assume already deleted"
   ELSE LET m    == disk.meta[h]
            dels == << D("meta", h, 0), D("hidx", m.blk, 0), D("commit", h, 0), D("seen", h, 0) >>
                    \o [p \in 1 .. m.total |-> D("part", h, p - 1)]
-           b2   == batch \o dels
-       IN IF (pruned + 1) % cfg.batch = 0
-          THEN PBLoop(cfg, disk, memheight, h + 1, to, << >>, pruned + 1,
-                      out \o Flush(memheight, b2, FlushBase(h)))
-          ELSE PBLoop(cfg, disk, memheight, h + 1, to, b2, pruned + 1, out)
+           b2   == st.batch \o dels
+       IN IF (st.pruned + 1) % cfg.batch = 0       \* flush every cfg.batch blocks
+          THEN [batch |-> << >>, pruned |-> st.pruned + 1, out |-> st.out \o Flush(memheight, b2, FlushBase(h))]
+          ELSE [batch |-> b2, pruned |-> st.pruned + 1, out |-> st.out]
+
+RECURSIVE PBLoop(_, _, _, _, _, _)
+\* for h := lo; h <= hi; h++  (divide and conquer over the height range, state threaded through)
+PBLoop(cfg, disk, memheight, lo, hi, st) ==
+  IF lo > hi THEN st
+  ELSE IF lo = hi THEN PBBody(cfg, disk, memheight, lo, st)
+  ELSE LET mid == (lo + hi) \div 2
+           L   == PBLoop(cfg, disk, memheight, lo, mid, st)
+       IN IF L.pruned >= 0 THEN PBLoop(cfg, disk, memheight, mid + 1, hi, L) ELSE L    \* (test forces L first)
 
 \* store.go PruneBlocks(to): removes [base, to)
 PruneBlocksSteps(cfg, disk, mem, to) ==
   IF to <= 0 \/ to > mem.height \/ to < mem.base THEN [steps |-> << >>, res |-> "err"]
-  ELSE [steps |-> PBLoop(cfg, disk, mem.height, mem.base, to, << >>, 0, << >>), res |-> "ok"]
+  ELSE LET st == PBLoop(cfg, disk, mem.height, mem.base, to - 1, [batch |-> << >>, pruned |-> 0, out |-> << >>]) IN
+       [steps |-> st.out \o Flush(mem.height, st.batch, to), res |-> "ok"]
 
 \* ------------------------------------------------------------------ state store: loading
 CkptOf(cfg, h) == LET S == {c \in cfg.ckpt : c <= h} IN IF S = {} THEN 0 ELSE SetMax(S)
@@ -249,22 +263,33 @@ PSGroup(cfg, disk, keepV, keepP, h) ==
      ELSE IF perr THEN [err |-> TRUE, steps |-> << >>]
      ELSE [err |-> FALSE, steps |-> vw \o pw \o << D("abci", h, 0) >>]
 
-RECURSIVE PSLoop(_, _, _, _, _, _, _, _, _)
-\* descending loop; flushed = writes of completed batches, batch = current batch
-PSLoop(cfg, disk, keepV, keepP, h, from, pruned, flushed, batch) ==
-  IF h < from THEN [steps |-> flushed \o batch, res |-> "ok"]
+\* loop body for height h; st = [err, pruned, flushed, batch]
+PSBody(cfg, disk, keepV, keepP, h, st) ==
+  IF st.err THEN st
   ELSE LET g == PSGroup(cfg, disk, keepV, keepP, h) IN
-       IF g.err THEN [steps |-> flushed, res |-> "err"]        \* return err: open batch dropped
-       ELSE IF (pruned + 1) % cfg.batch = 0
-            THEN PSLoop(cfg, disk, keepV, keepP, h - 1, from, pruned + 1, flushed \o batch \o g.steps, << >>)
-            ELSE PSLoop(cfg, disk, keepV, keepP, h - 1, from, pruned + 1, flushed, batch \o g.steps)
+       IF g.err THEN [st EXCEPT !.err = TRUE]                 \* return err: the open batch is dropped
+       ELSE IF (st.pruned + 1) % cfg.batch = 0                \* batch.Write() every cfg.batch heights
+            THEN [err |-> FALSE, pruned |-> st.pruned + 1, flushed |-> st.flushed \o st.batch \o g.steps, batch |-> << >>]
+            ELSE [err |-> FALSE, pruned |-> st.pruned + 1, flushed |-> st.flushed, batch |-> st.batch \o g.steps]
+
+RECURSIVE PSLoop(_, _, _, _, _, _, _)
+\* for h := hi; h >= lo; h--  (descending; divide and conquer, state threaded through)
+PSLoop(cfg, disk, keepV, keepP, lo, hi, st) ==
+  IF lo > hi THEN st
+  ELSE IF lo = hi THEN PSBody(cfg, disk, keepV, keepP, lo, st)
+  ELSE LET mid == (lo + hi) \div 2
+           U   == PSLoop(cfg, disk, keepV, keepP, mid + 1, hi, st)
+       IN IF U.pruned >= 0 THEN PSLoop(cfg, disk, keepV, keepP, lo, mid, U) ELSE U     \* (test forces U first)
 
 \* state/store.go PruneStates(from, to): removes [from, to) except what `to` still points to
 PruneStatesSteps(cfg, disk, from, to) ==
   IF from <= 0 \/ to <= 0 \/ from >= to THEN [steps |-> << >>, res |-> "err"]
   ELSE IF ~InDom(cfg, to) \/ ~InDom(cfg, from) THEN [steps |-> << >>, res |-> "err"]
   ELSE IF disk.vals[to].lhc = -1 \/ disk.params[to].lhc = -1 THEN [steps |-> << >>, res |-> "err"]
-  ELSE PSLoop(cfg, disk, KeepVals(cfg, disk, to), KeepParams(cfg, disk, to), to - 1, from, 0, << >>, << >>)
+  ELSE LET st == PSLoop(cfg, disk, KeepVals(cfg, disk, to), KeepParams(cfg, disk, to), from, to - 1,
+                       [err |-> FALSE, pruned |-> 0, flushed |-> << >>, batch |-> << >>]) IN
+       IF st.err THEN [steps |-> st.flushed, res |-> "err"]
+       ELSE [steps |-> st.flushed \o st.batch, res |-> "ok"]
 
 \* ------------------------------------------------------------------ projection (the audit's view)
 \* What the loaders of both stores return for height h, as the Go audit records it.  Ids
